@@ -29,13 +29,49 @@ func collectStrings(v any, out *[]string) {
 	}
 }
 
-var c04refs = []string{`\$`, `x\$`, "$$", "$FOO", "${BAR}", "$$ESC", `\$ESC2`, "${UNSET:-dflt}", "${EMPTY:-e}", "${FOO-x}", "$UNSET.", "", "", "$(cmd)", "$", "$1", `\\`, "$FOO$BAR"}
+const c04failingRef = "${NOPE?must be set}"
+
+// c04failingRefs counts the strings (keys included) carrying the failing reference, outside and inside `signature`
+// entries
+func c04failingRefs(d *dv, inSig bool, outside, inside *int) {
+	note := func(s string) {
+		if strings.Contains(s, c04failingRef) {
+			if inSig {
+				*inside++
+			} else {
+				*outside++
+			}
+		}
+	}
+	switch d.kind {
+	case 's':
+		note(d.s)
+	case 'l':
+		for _, e := range d.l {
+			c04failingRefs(e, inSig, outside, inside)
+		}
+	case 'm':
+		for _, e := range d.m {
+			note(e.k)
+			c04failingRefs(e.v, inSig || e.k == "signature", outside, inside)
+		}
+	}
+}
+
+var c04refs = []string{"${FOO?must be set}", `\$`, `x\$`, "$$", "$FOO", "${BAR}", "$$ESC", `\$ESC2`, "${UNSET:-dflt}", "${EMPTY:-e}", "${FOO-x}", "$UNSET.", "", "", "$(cmd)", "$", "$1", `\\`, "$FOO$BAR"}
 
 func c04doc(rng *sx.Rng, big bool) (*docgen, *dv) {
 	g := newDocgen(rng, false)
 	base := g.mark
 	_ = base
-	g.decorate = func(m string) string { return m + sx.Pick(rng, c04refs) }
+	// one document in seven has references that cannot be expanded (a required variable that is not set)
+	failing := rng.Chance(14)
+	g.decorate = func(m string) string {
+		if failing && rng.Chance(6) {
+			return m + c04failingRef
+		}
+		return m + sx.Pick(rng, c04refs)
+	}
 	d := g.document()
 	// small ORDERED mappings (nested mappings stay *ordered.Map) in which a key expands onto another key of the
 	// same mapping: the rename tombstones the other slot, and in a small map that crosses the compaction
@@ -152,12 +188,96 @@ func c04aliases(rng *sx.Rng, n int) {
 	}
 }
 
+// c04apiBuilt: a pipeline put together through the API may hold Go values that no parser produces - typed string
+// maps and slices, ordered maps of strings, string pointers - inside its free-form fields. Their strings are strings
+// of the pipeline: the same structure built from already expanded strings is what interpolation must leave.
+func c04apiBuilt(rng *sx.Rng, n int) {
+	envm := map[string]string{"FOO": "vfoo", "BAR": "v bar", "EMPTY": ""}
+	for i := 0; i < n; i++ {
+		pool := []string{"a $FOO", "${BAR}", "$$FOO", `\$BAR`, "plain", "${EMPTY:-dflt}", "x${FOO}y", "$UNSET."}
+		picks := make([]string, 24)
+		for j := range picks {
+			picks[j] = fmt.Sprintf("%d %s", j, pool[rng.Intn(len(pool))])
+		}
+		build := func(f func(string) string) *pipeline.Pipeline {
+			k := 0
+			nx := func() string { k++; return f(picks[k%len(picks)]) }
+			om := ordered.NewMap[string, string](0)
+			om.Set(nx(), nx())
+			om.Set(nx(), nx())
+			oa := ordered.NewMap[string, any](0)
+			oa.Set(nx(), []string{nx(), nx()})
+			oa.Set(nx(), map[string]string{nx(): nx()})
+			ps := nx()
+			inner := ordered.NewMap[string, string](0)
+			inner.Set(nx(), nx())
+			cs := &pipeline.CommandStep{
+				Command: nx(),
+				Label:   nx(),
+				Plugins: pipeline.Plugins{{Source: "docker#v1", Config: map[string]any{nx(): map[string]string{nx(): nx()}, "list": []string{nx()}, "omap": inner}}},
+				RemainingFields: map[string]any{
+					"typed_map":  map[string]string{nx(): nx(), nx(): nx()},
+					"typed_omap": om,
+					"any_omap":   oa,
+					"strings":    []string{nx(), nx()},
+					"pointer":    &ps,
+					"nested":     []any{map[string]any{nx(): []any{nx(), map[string]string{nx(): nx()}}}},
+				},
+			}
+			grp := nx()
+			return &pipeline.Pipeline{
+				Steps: pipeline.Steps{cs, &pipeline.GroupStep{Group: &grp, Steps: pipeline.Steps{&pipeline.TriggerStep{Contents: map[string]any{"trigger": nx(), "build": map[string]string{nx(): nx()}}}}}},
+				RemainingFields: map[string]any{"top": map[string]string{nx(): nx()}},
+			}
+		}
+		env := &hEnv{m: map[string]string{}}
+		for k, v := range envm {
+			env.Set(k, v)
+		}
+		var xerr error
+		want := build(func(s string) string {
+			o, err := interpolate.Interpolate(env, s)
+			if err != nil {
+				xerr = err
+			}
+			return o
+		})
+		if xerr != nil {
+			continue
+		}
+		got := build(func(s string) string { return s })
+		c := sx.L(sx.A("api-built"), sx.A(strings.Join(picks, " | ")))
+		var ierr error
+		func() {
+			defer func() {
+				if r := recover(); r != nil {
+					ierr = fmt.Errorf("panic: %v", r)
+				}
+			}()
+			ierr = got.Interpolate(env, false)
+		}()
+		if ierr != nil {
+			oracleFail("C04", "api-built", c, "Interpolate: "+ierr.Error())
+			continue
+		}
+		wb, e1 := json.Marshal(want)
+		gb, e2 := json.Marshal(got)
+		if e1 != nil || e2 != nil || sortedJSON(wb) != sortedJSON(gb) {
+			oracleFail("C04", "api-built", c, fmt.Sprintf("interpolating the pipeline gives\n%s\nbuilding it from expanded strings gives\n%s (%v %v)", sortedJSON(gb), sortedJSON(wb), e1, e2))
+			continue
+		}
+		stat("C04", "api-built")
+	}
+}
+
 func init() {
 	props["C04"] = func(rng *sx.Rng, thorough bool) {
 		if thorough {
 			c04aliases(rng, 3000)
+			c04apiBuilt(rng, 3000)
 		} else {
 			c04aliases(rng, 150)
+			c04apiBuilt(rng, 150)
 		}
 		n := 1500
 		if thorough {
@@ -179,6 +299,8 @@ func init() {
 			short := sx.L(sx.A(form), sx.A(text))
 			var first []byte
 			var firstErr error
+			nOutside, nInside, failed := 0, 0, 0
+			c04failingRefs(d, false, &nOutside, &nInside)
 			reps := 3
 			for rep := 0; rep < reps; rep++ {
 				noteCase("C04", text)
@@ -209,9 +331,28 @@ func init() {
 					break
 				}
 				if ierr != nil {
-					oracleFail("C04", "unexpected-error", short, ierr.Error())
+					if nOutside+nInside == 0 {
+						oracleFail("C04", "unexpected-error", short, ierr.Error())
+						first = nil
+						firstErr = ierr
+						break
+					}
+					if !strings.Contains(ierr.Error(), "must be set") {
+						oracleFail("C04", "error-not-reported", short, "the expansion fails with `must be set`, the call reports: "+ierr.Error())
+						first = nil
+						break
+					}
+					failed++
+					continue
+				}
+				if nOutside > 0 {
+					oracleFail("C04", "error-swallowed", short, fmt.Sprintf("%d strings outside signatures hold a reference to a required variable that is not set, yet Interpolate returned nil", nOutside))
 					first = nil
-					firstErr = ierr
+					break
+				}
+				if failed > 0 {
+					oracleFail("C04", "nondeterministic", short, "the same input fails in one run and succeeds in another")
+					first = nil
 					break
 				}
 				jb, jerr := json.Marshal(p)
@@ -313,6 +454,15 @@ func init() {
 					firstErr = fmt.Errorf("oracle")
 					break
 				}
+			}
+			if failed == reps {
+				stat("C04", "expansion-fails")
+				fmt.Fprintf(out, "CASE\tC04\t%s\t%s\t1\n", sx.String(c), sx.String(sx.L(sx.A("err"))))
+				continue
+			}
+			if failed > 0 && first != nil {
+				oracleFail("C04", "nondeterministic", short, "the same input fails in one run and succeeds in another")
+				continue
 			}
 			if first == nil {
 				_ = firstErr
